@@ -7,59 +7,59 @@ ROOT = os.path.dirname(os.path.dirname(os.path.abspath(__file__)))
 CHECKS = {
  "C01": ("bounded exhaustive enumeration of PathBuilder op sequences on the quarter-pixel grid, each filled by the real rasteriser and compared with an exact integer supersampling model",
          "Every polygon / op string in the stated finite alphabets (triangles, quads, 5-6-gons, two-subpath paths, all M/L/Z strings to depth 4-5, far-away triangles, degenerate surfaces) is executed on the real code under both winding rules and both antialias modes and compared pixel by pixel with an exact integer model of the property; a pass is a coverage statement over that space, not a sample.",
-         "Trusts the integer reference model (mc/src/model/rast.rs); admits both roundings within the 16.16 slope drift bound of a rounding boundary; bounded to the listed grids and surfaces <= 3x3.",
+         "Trusts the integer reference model (mc/src/model/rast.rs); admits both roundings within the 16.16 slope drift bound of a rounding boundary; bounded to the listed grids on surfaces <= 3x3, plus one representative family per magnitude: strips 300 / 4000 / 8200 pixels long, star / comb / tiling polygons with up to 300 subpaths, winding numbers up to 513.",
          "DESIGN.md section 4, C01"),
 
  "C02": ("bounded exhaustive enumeration of single drawing calls over clip/layer/transform contexts, every blend mode and source kind, each transition checked by a per-pixel step oracle",
          "Every combination of the stated finite alphabets (surface, destination, transform, clip/layer context, shape, call, 28 blend modes, source kinds, alphas, both aa modes) is executed on the real code; after every call all buffers (surface and every open layer, read through the verification hooks) are compared with their state before: pixels with zero reference coverage, outside any clip rectangle, with zero clip-path coverage or in a non-destination buffer must be bit-identical.",
-         "Zero coverage is decided by an independent opaque-white reference fill of the same shape (validated by C01/C04/C08); clip state is read through cfg(raqote_verif) accessors; bounded to surfaces <= 6x5 and the listed shapes.",
+         "Zero coverage is decided by an independent opaque-white reference fill of the same shape (validated by C01/C04/C08); clip state is read through cfg(raqote_verif) accessors; bounded to surfaces <= 6x5 and the listed shapes, plus long strips (300 and 8200 pixels) with full-length sliver fills and non-periodic masks, and mixed cross-feature histories to depth 4-5.",
          "DESIGN.md section 4, C02"),
  "C03": ("bounded exhaustive enumeration of drawing calls with per-pixel distinct inputs, each transition checked against a per-pixel reference built from sw_composite's public primitives",
          "Scenes give every pixel its own destination value, coverage, clip coverage and source colour; all 28 modes, all source kinds with decidable colour, alphas, all 256 mask bytes, every mask offset, pop_layer with every blend and opacity; every pixel of every buffer after every call must equal an admissible value of M-PIX for that pixel's own inputs (exactly blend(src,dst) at full weight, unchanged at zero weight).",
-         "Blend formulas are sw_composite's public primitives (trusted as definition); two compositions of coverage x clip coverage are admitted for partial weights; source colours of non-constant gradients and non-integer image sampling are left to C12/C13.",
+         "Blend formulas are sw_composite's public primitives (trusted as definition); two compositions of coverage x clip coverage are admitted for partial weights; source colours of non-constant gradients and non-integer image sampling are left to C12/C13; also long strips (300 / 8200 px), a 300x300 mask, mixed histories to depth 5-6.",
          "DESIGN.md section 4, C03"),
 
  "C14": ("bounded exhaustive differential exploration: fast route vs general route on identical initial contents, bit-exact",
          "Every integer rectangle with x,y in [-2,W+2] and w,h in [-2,W+3] (zero, negative, off-surface included) x modes x source kinds x alphas x destinations is drawn by fill_rect and by fill(PathBuilder::rect), and with/without a surface-covering clip; clear(c) with/without a covering clip; draw_image_at at every integer position vs fill_rect/fill with the translated image source; surfaces must be bit-identical.",
-         "Differential: no expected value is modelled, so a defect shared by both routes is invisible here (C02/C03 cover each route against a model); surfaces 4x3 and 3x4.",
+         "Differential: no expected value is modelled, so a defect shared by both routes is invisible here (C02/C03 cover each route against a model); surfaces 4x3 and 3x4, 8200-long strips, and draw_image_at under 7 non-identity transforms (against the Pad + Bilinear source draw_image_at builds).",
          "DESIGN.md section 4, C14"),
  "C15": ("bounded exhaustive enumeration of (sizes, src_rect, dst, operation) tuples against a block-transfer reference model",
          "All source/destination sizes in {0..3}^2, all 1296 src_rects with coordinates in [-1,4] (inside, overlapping, outside, empty, inverted), all dst in [-4,4]^2, copy / blend (28 modes) / blend_with_alpha, with and without transform+clip+layer on the destination; every destination pixel compared with a double-loop model; out-of-bounds access shows as a panic.",
-         "Blend formulas are sw_composite's primitives; pairs on which the non-separable primitives overflow are skipped (counted); sizes <= 3x3.",
+         "Blend formulas are sw_composite's primitives; pairs on which the non-separable primitives overflow are skipped (counted); sizes <= 3x3, plus 300-long strips, i32-extreme rectangles and destinations, and 65536x1 / 1x40000 strips.",
          "DESIGN.md section 4, C15"),
  "C16": ("bounded exhaustive enumeration of path op strings x tolerances; flatten output matched op by op against an f64 curve model",
          "All op strings up to depth 3-4 over {M,L,Q,C} x off-grid points + Z (curves first, after Close, after MoveTo, consecutive curves, looping cubics) x 4 tolerances: output has only M/L/Z, M/L/Z preserved bit-exactly in order, curve vertices on the f64 curve at non-decreasing parameter from the model cursor, end point bit-exact, deviation <= 8 x tolerance; fill(path) vs fill(flatten(0.01)) differ only near the outline (both winding rules).",
-         "f64 curve evaluation with 2e-3 px vertex tolerance; strict monotonicity of deviation in tolerance is not demanded (only the 8x bound at four tolerances).",
+         "f64 curve evaluation with 2e-3 px vertex tolerance; strict monotonicity of deviation in tolerance is not demanded (only the 8x bound, at six tolerances from 0.0002 to 2, and on curves up to 6000 units across).",
          "DESIGN.md section 4, C16"),
  "C17": ("bounded exhaustive enumeration of grid polygons x query points against an exact integer winding / on-segment model",
          "Triangles, quads, pentagons, hexagons and all M/L/Z op strings over integer grids x both rules x all 169 half-step query points (level with vertices, on edges, collinear beyond edge ends, on horizontal edges) compared with exact i64 winding numbers; plus agreement with a 4x-scaled fill for pixels with exact full / zero coverage.",
-         "Exact for grid inputs; query points coinciding only with a lone zero-length segment are left undecided.",
+         "Exact for grid inputs; query points coinciding only with a lone zero-length segment are left undecided; straight paths at tolerances 0.001..100, curved paths against the f64 winding number of flatten(t).",
          "DESIGN.md section 4, C17"),
  "C19": ("bounded exhaustive enumeration of pixel assignments on small surfaces; every view and the decoded PNG compared with the word layout model",
          "Every assignment of a 12-value pixel alphabet to surfaces of up to 4 pixels and one-hot scans up to 3x3 (7x5 thorough): get_data / get_data_u8 / mutable views / write_png decoded with the png crate / from_vec (exact, shorter, longer) / from_backing / into_vec / into_inner; to_u32 over 17^4 channel tuples.",
-         "Little-endian host; trusts the png crate's decoder; temporary files under /verif/target/tmp.",
+         "Little-endian host; trusts the png crate's decoder; temporary files under /verif/target/tmp; surfaces up to 90000 pixels and rows of 70000 pixels are included (view writes at selected positions there).",
          "DESIGN.md section 4, C19"),
  "C20": ("bounded exhaustive enumeration of helper parameters and op strings; emitted ops evaluated in f64 against the documented geometry",
          "rect over a 144-tuple grid; arc over centres x radii (0..1000) x 16-48 start angles x 19-43 sweeps of both signs and beyond one turn, with and without a current point (radius within 0.5%, monotone angle in the sweep's direction, covered angle, end point, leading line_to); Path::transform of every op string up to depth 3-4 under 11 transforms incl. singular ones (bit-equal to transform_point, order and winding kept); finish() order.",
-         "f64 evaluation of emitted ops; 33 samples per quad.",
+         "f64 evaluation of emitted ops; 33 samples per quad; transforms with entries down to 1e-9 on coordinates up to 1e7; four builder contexts for arc().",
          "DESIGN.md section 4, C20"),
 
  "C05": ("explicit-state exploration of clip-stack histories against a reference clip stack (M-CLIP), with probe draws checked per pixel under the model's clip",
          "All histories of push_clip_rect (inner, overlapping, disjoint, inverted, off-surface, larger than the surface) / push_clip (AA triangle, half-pixel rect, even-odd ring, off-surface, aligned) / pop_clip / set_transform up to depth 3-4 on fresh targets; after each, the implementation's effective clip equals the intersection of the pushed rects and the muldiv255 product of the pushed paths' coverages, and 11 probe calls (fills in three modes, fill_rect, clear, mask, draw_image_at, stroke, layer) are checked pixel by pixel under the model's clip.",
-         "Clip path coverage is the implementation's own white antialiased fill (validated by C01/C08); three or more nested paths admit any association order of the rounding product.",
+         "Clip path coverage is the implementation's own white antialiased fill (validated by C01/C08); three or more nested paths admit any association order of the rounding product; includes stacks up to 8 (one chain of 41) deep and a 300x300 surface.",
          "DESIGN.md section 4, C05"),
  "C06": ("explicit-state exploration of balanced layer scenes; per-transition step oracle plus an isolated-surface reference machine (M-LAYER) for the final pixels",
          "Clip context x push_layer(opacity, blend) x every well-nested inner sequence (draws incl. clear, nested layers, clip and transform changes) up to depth 2-3 x pop: every draw goes to the innermost layer buffer only, push/pop leave transform and clip stack alone, a layer under an empty clip is harmless, pop composites the group once per M-PIX; the final surface equals that of a machine keeping every layer as a separate transparent DrawTarget.",
-         "Group compositing formula as in C03; reference layers are real DrawTargets driven by the same calls (only isolation and the single group composite are modelled).",
+         "Group compositing formula as in C03; reference layers are real DrawTargets driven by the same calls (only isolation and the single group composite are modelled); includes towers of 4-6 layers and surfaces of more than 65536 pixels.",
          "DESIGN.md section 4, C06"),
  "C10": ("explicit-state exploration of call histories on one long-lived target; each transition compared with the same call on a fresh target holding the same visible state; merged BFS on a canonical state key",
          "All well-nested histories over a 30-call alphabet to depth 3-4 unmerged and to depth 4-6 breadth-first with merging (19M distinct states at thorough): identical buffers on reused and fresh targets, rasteriser idle after every call.",
-         "Merging key = 64-bit hash of (all buffers, transform, clip stack, layers, idle flag, hidden path cursor); both sides are the implementation (differential).",
+         "Merging key = 64-bit hash of (all buffers, transform, clip stack, layers, idle flag, hidden path cursor); both sides are the implementation (differential); the alphabet (36 calls) includes empty clip rects and transform-positioned gradient / image draws.",
          "DESIGN.md section 4, C10"),
 
  "C07": ("deviation-bounded exhaustive enumeration of argument vectors per public call (0..d deviations from nominal over per-parameter boundary alphabets) and of call sequences, executed in watchdog-supervised child processes",
          "For fill, stroke, fill_rect, mask, draw_image_at / with_size, copy/blend_surface, flatten / contains_point / transform and clear: every argument vector with at most 3 (quick) / 4 (thorough) deviations from nominal over the boundary values named in the property (surface sizes incl. 0, 15 transforms incl. singular / tiny / huge, 43 paths incl. +-3999.75 px, empty, degenerate and curved ones, 29 sources incl. degenerate gradients, 28 modes, alpha/opacity NaN / -inf / 2 / 256 / inf, 9 widths, 15 dash arrays x 9 offsets, clip rectangles empty / inverted / +-2^20, layers under empty clips, ...) restricted to the stated domain; plus all call sequences of length <= 4 / 5 over a 35-call alphabet. No unwind, no abort, no allocation failure, return within the horizon, rasteriser idle after every call; overflow checks and debug assertions are on in raqote and every dependency.",
-         "Children run under ulimit -v 8 GB with a 5 s per-case horizon; domain filters are stated in the evidence assumptions; the dependency's non-separable blend overflow is a listed known finding.",
+         "Children run under ulimit -v 8 GB with a 5 s per-case horizon; domain filters are stated in the evidence assumptions; the dependency's non-separable blend overflow is a listed known finding; i32 extremes for block transfers, 130 coincident contours, hairpins and 650 px pens are in the alphabets.",
          "DESIGN.md section 4, C07"),
  "C18": ("bounded exhaustive enumeration of scenes with valid premultiplied inputs; invariant r,g,b <= a evaluated on every buffer after every call",
          "The C03 scene space extended with non-constant gradients and filtered images, all 28 x 28 ordered blend-mode pairs in two consecutive draws (the output of one is the destination of the next), layer scenes with every layer blend x every inner mode, nested layers, and the Color / from_unpremultiplied_argb conversions over 17^4 channel tuples: after every call every pixel of the surface and of every open layer satisfies r,g,b <= a.",
@@ -68,29 +68,29 @@ CHECKS = {
 
  "C12": ("bounded exhaustive enumeration of gradient geometries x stops x spreads x alphas x transforms; every pixel compared with an analytic f64 gradient model within the property's tolerance",
          "Linear (all ordered pairs of grid points, 1 px and 40 px extents), radial (radii 1..64), two-circle (concentric, eccentric, touching, tiny inner circle) and sweep gradients x 3-5 stop sets (incl. hard stops and single stop) x Pad/Repeat/Reflect x alphas x 2-8 transforms, drawn as full-surface Src fills on 24x24: each channel within 4 of the range of the analytic colour for t within 3/255 (+|t|/255) of the pixel's t; exact end colour under Pad; transparent where no circle exists.",
-         "Pixels within 1-1.5 px of a discontinuity of t are not asserted; the sampling position is admitted within 1/1000 px; the dependency's sweep start-angle bias is a listed known finding.",
+         "Pixels within 1-1.5 px of a discontinuity of t are not asserted; the sampling position is admitted within 1/1000 px; the dependency's sweep start-angle bias is a listed known finding; includes draws after layer pops / clear under a clip, under clip paths (SrcOver), 300 stops, 300-long strips.",
          "DESIGN.md section 4, C12"),
  "C13": ("bounded exhaustive enumeration of images x extend x filter x alpha x transforms; every fully covered pixel compared with a reference sampler",
          "Images 1x1..4x1 with all-distinct texels x Pad/Repeat x Nearest/Bilinear x alpha {1, 0.5, 0} x 9 CTMs x 46-102 source transforms (all integer translations in [-4,4]^2, quarter-pixel translations, scales, rotations) on 6x5 and 9x7, plus draw_image_at / draw_image_with_size_at at 81 positions x 5 sizes: exact texel for Nearest and integer translations, the 4-bit-weighted formula for Bilinear, edge clamp / modular wrap beyond the image, alpha scaling.",
-         "Admits the neighbouring texel / weight step within the 16.16 coordinate slack; only pixels with full reference coverage are asserted.",
+         "Admits the neighbouring texel / weight step within the 16.16 coordinate slack; only pixels with full reference coverage are asserted; includes one-sided skews, a 300x300 image and 8200-long strips with near-identity sampling matrices.",
          "DESIGN.md section 4, C13"),
 
  "C04": ("bounded exhaustive enumeration of polylines x stroke styles x transforms; pixels compared with an analytic stroke region (union of convex pieces) plus a bit-exact differential against the filled stroke_to_path outline",
          "All 2-4 vertex polylines over a 4x4 user grid (every turning angle incl. exact reversals) x open with each cap / closed x widths x Round / Bevel / Miter with limits 0..10 x 7 transforms, two-subpath paths, flattened quads and cubics, degenerate widths: every pixel entirely inside the analytic region by more than the property's margin is fully painted, every pixel entirely outside by more than it untouched; straight strokes equal the NonZero fill of the transformed outline bit for bit; non-positive or NaN widths paint nothing.",
-         "Round pieces are bracketed by inscribed / circumscribed polygons (error added to the margin); joins within 1e-4 of the miter limit are not asserted; curves are taken through Path::flatten (validated by C16).",
+         "Round pieces are bracketed by inscribed / circumscribed polygons (error added to the margin); joins within 1e-4 of the miter limit are not asserted; curves are taken through Path::flatten (the property defines the region on the flattened polyline; validated by C16); includes EvenOdd-flagged paths, user units 1e-5 / 1e3 times the device ones, 100-300 subpaths.",
          "DESIGN.md section 4, C04"),
  "C08": ("bounded exhaustive enumeration of curved paths over off-grid control point sets x winding rules x transforms; pixels compared with an f64 fine flattening (winding number and distance to the outline)",
          "All single quads over a 6x6 control set (36^3), single cubics (4x4: 65k; thorough 36^4 = 1.68M), compound paths (quad+quad, cubic+line+quad+Close+quad, curve-first, curve after Close), arcs (3 radii x 8 starts x 10 sweeps), large curves on 36x36, both rules, 7 transforms, fill and clip: every pixel farther than 1 + sqrt(1/2) px from the f64 outline is fully painted iff the winding rule holds at its centre.",
-         "96-192 segment f64 flattening; arcs are modelled as true circular arcs with 0.5% r added to the margin.",
+         "adaptive f64 flattening (within 0.005 px of the curve; at least 96 segments); control points up to 3900 px away, chords up to 3900 px; arcs are modelled as true circular arcs with 0.5% r added to the margin.",
          "DESIGN.md section 4, C08"),
  "C09": ("bounded exhaustive enumeration of polylines x dash arrays x offsets x styles; the dasher's output (hook) compared with an independent arc-length dasher and the pixels with the stroke region of its pieces",
          "Open and closed polylines and two-subpath paths x all dash arrays of length 1-3 over {2,5,11,40,200} and length 4/6 over {3,7} x offsets of both signs up to +-10000.5 x caps/joins/widths: the pieces emitted by dash_path equal the on-intervals of M-DASH vertex for vertex (joined across a closed subpath's seam, complete closed outline when fully on), pixels match M-REGION of those pieces at 0.75 px, non-positive totals paint nothing.",
-         "Cases with a dash boundary within 2e-3 of a vertex are not asserted (piece structure ambiguous there); the overlapping-pieces rasteriser finding is listed.",
+         "Cases with a dash boundary within 2e-3 of a vertex are not asserted (piece structure ambiguous there); the overlapping-pieces rasteriser finding is listed; huge offsets are only combined with exactly representable periods; dash entries below 1e-3 are matched as dots by position.",
          "DESIGN.md section 4, C09"),
 
  "C11": ("bounded exhaustive differential exploration (bit-exact) of transform equivalences, plus the step oracle's transform-preservation clause",
          "fill(p) under each of 11 transforms vs fill(Path::transform(p,T)) under the identity for triangles over a 3x3 off-grid set, curves, arcs, even-odd ring, no-MoveTo path x 2 aa x 2 rules; stroke under T vs NonZero fill of the transformed stroke_to_path outline; CTM/source-transform cancellation for exactly invertible T (images pad/repeat x filters, raw gradients); singular T leaves the target unchanged for 8 calls x 4 contexts; push_clip_rect / mask / copy_surface / blend_surface ignore T; clear and pop_layer leave get_transform() bit-identical.",
-         "Source positioning under general T is decided by C12/C13 (which enumerate CTMs); mask() under a singular T is not asserted (the property's two clauses contradict there).",
+         "Source positioning under general T is decided by C12/C13 (which enumerate CTMs); mask() under a singular T is not asserted (the property's two clauses contradict there); determinants down to 1e-10 and stroke scales 1/50..400 (true-curve reference with round joins) are included.",
          "DESIGN.md section 4, C11"),
 }
 NOT_YET = "check not built yet in this round (design in DESIGN.md section 4); will be claimed once its explorer exists"
